@@ -544,6 +544,14 @@ func checkToSlice(v any) []string {
 func checkGenericAs(v any) []string {
 	var pr []string
 	r := flyt.NewResult(v)
+	// the shorthand constructor is the same constructor
+	if p, pv := try(func() {
+		if r2 := flyt.R(v); r2.IsError() != r.IsError() || !eqElem(r2.Value(), r.Value()) {
+			pr = append(pr, fmt.Sprintf("R(%s) differs from NewResult of the same value: %s vs %s", describe(v), sh(r2.Value()), sh(r.Value())))
+		}
+	}); p {
+		pr = append(pr, fmt.Sprintf("R(%s) panicked: %v", describe(v), pv))
+	}
 	if p, pv := try(func() {
 		_, ok := flyt.As[int](r)
 		_, isInt := v.(int)
